@@ -4,10 +4,11 @@ import z3
 
 class BV:
     """machine integer: z3 bit-vector term + width; signed=True for i32/i64."""
-    __slots__ = ('t', 'bits', 'signed')
+    __slots__ = ('t', 'bits', 'signed', 'is_max')
 
     def __init__(s, t, bits, signed=False):
         s.t, s.bits, s.signed = t, bits, signed
+        s.is_max = False
 
     def __repr__(s):
         return 'BV%d(%s)' % (s.bits, z3.simplify(s.t))
